@@ -13,7 +13,7 @@ ID = "C06"
 LEAN_TARGETS = ["Strengths.Props.C06"]
 PROP_FILES = ["Strengths/Props/C06.lean"]
 GEN_GROUPS = ["Units"]
-RULE = ("exhaustive: every ordered pair of symbols per base kind x exponents -4..4 (factor vs exact SI ratio); "
+RULE = ("purity / re-use sequences (source and target objects re-used and edited between conversions); same-system other-dimension targets; exhaustive: every ordered pair of symbols per base kind x exponents -4..4 (factor vs exact SI ratio); "
         "random: triples of systems x dimension vectors in [-4,4]^3 x five target forms x scalar/array; "
         "a case is non-trivial when source and destination differ in a base whose exponent is non-zero; "
         "distinct by (src, dst, dim, form)")
@@ -243,6 +243,95 @@ def run(ctx):
             ctx.violation("roundtrip", "there-and-back conversion does not return the value", case, impl={"back": back})
         if same != v0:
             ctx.violation("identity", "conversion to the same system changed the value", case, impl={"same": same})
+
+    # ---------------------------------------------------------------- 3b. purity / re-use: conversion never modifies its
+    # operands or targets, equal inputs give equal outputs whatever happened before, and a target object that is edited
+    # through its setters between two conversions is read with its CURRENT units
+    import numpy as np
+    k = ctx.n(300, 6000)
+    for i in range(k):
+        U, V, W = rand_sys(rng), rand_sys(rng), rand_sys(rng)
+        d = rand_dim(rng)
+        if d == (0, 0, 0):
+            d = (1, -1, 0)
+        vals = [float(rng.randint(1, 99999) * Fraction(10) ** rng.randint(-6, 6)) for _ in range(rng.randint(1, 4))]
+        case = {"U": U, "V": V, "W": W, "dim": d, "vals": vals}
+        ctx.case(("p", U, V, W, d, len(vals)), nontrivial=(U != V))
+        ctx.count("purity_sequences")
+        # (a) array source: converted twice from the same object; the source must stay bit-identical
+        arr = UnitArray(list(vals), mk_units(U, d))
+        before = np.array(arr.value, dtype=float).tobytes()
+        tV = UnitsSystem(*V)
+        r1 = [float(v) for v in arr.convert(tV).value]
+        if np.array(arr.value, dtype=float).tobytes() != before:
+            ctx.violation("purity:array-source-modified", "UnitArray.convert modified its source array", case,
+                          impl={"source_after": [float(v) for v in arr.value]}, expected={"source": vals})
+        r2 = [float(v) for v in arr.convert(tV).value]
+        f = si_factor(U, d) / si_factor(V, d)
+        if r1 != r2 or not all(close(g, frac(v) * f, rel=TOL) for g, v in zip(r2, vals)):
+            ctx.violation("purity:array-second-conversion", "a second conversion of the same array differs from the first / from SI scaling",
+                          case, impl={"first": r1, "second": r2}, expected={"factor": rstr(f)})
+        # raw ndarray through convert_value
+        from strengths.units import convert_value
+        raw = np.array(vals, dtype=float)
+        rb = raw.tobytes()
+        convert_value(raw, UnitsSystem(*U), tV, UnitsDimensions(*d))
+        if raw.tobytes() != rb:
+            ctx.violation("purity:ndarray-modified", "convert_value modified the array it was given", case, impl=[float(v) for v in raw])
+        # (b) the SAME target object, edited through its setters between two conversions
+        x = UnitValue(vals[0], mk_units(U, d))
+        tgt = UnitsSystem(*V)
+        y1 = x.convert(tgt).value
+        tgt.space, tgt.time, tgt.quantity = W[0], W[1], W[2]
+        y2 = x.convert(tgt)
+        fW = si_factor(U, d) / si_factor(W, d)
+        got_sys = (y2.units.sys.space, y2.units.sys.time, y2.units.sys.quantity)
+        if not close(y2.value, frac(vals[0]) * fW, rel=TOL) or got_sys != tuple(W) or not close(y1, frac(vals[0]) * f, rel=TOL):
+            ctx.violation("purity:edited-target", "a target units system edited through its setters is not read with its current units",
+                          case, impl={"first": y1, "second": y2.value, "sys": got_sys}, expected={"second_factor": rstr(fW), "sys": W})
+        # (c) the quantity's own units edited in place, then converted again
+        x2 = UnitValue(vals[0], mk_units(U, d))
+        x2.convert(tV)
+        x2.units.sys.space, x2.units.sys.time, x2.units.sys.quantity = W[0], W[1], W[2]
+        y3 = x2.convert(tV).value
+        fWV = si_factor(W, d) / si_factor(V, d)
+        if not close(y3, frac(vals[0]) * fWV, rel=TOL):
+            ctx.violation("purity:edited-source-units", "a quantity whose units were edited in place is converted with stale units",
+                          case, impl=y3, expected=rstr(frac(vals[0]) * fWV))
+        # (d) scalar source unchanged
+        if x.value != vals[0] or (x.units.sys.space, x.units.sys.time, x.units.sys.quantity) != tuple(U):
+            ctx.violation("purity:scalar-source-modified", "UnitValue.convert modified its source", case, impl=x.value)
+
+    # ---------------------------------------------------------------- 3c. other dimension, SAME unit system (every checking form)
+    # (a text target names only the bases with non-zero exponent; the others default to µm / s / molecule)
+    for i in range(ctx.n(400, 4000)):
+        U = rand_sys(rng) if i % 2 else ("µm", "s", "molecule")
+        d = rand_dim(rng, -3, 3)
+        d2 = d
+        while d2 == d or d2 == (0, 0, 0):
+            d2 = rand_dim(rng, -3, 3)
+        is_arr = bool(i % 3 == 0)
+        src = UnitArray([1.5, 2.5], mk_units(U, d)) if is_arr else UnitValue(1.5, mk_units(U, d))
+        for form in ("str", "units", "uval"):
+            if form == "str":
+                # the text must denote exactly U on the bases it names and leave the others at their defaults = U's
+                if any(d2[kk] == 0 and U[kk] != ("µm", "s", "molecule")[kk] for kk in range(3)):
+                    continue
+                t = units_text(U, d2)
+            elif form == "units":
+                t = mk_units(U, d2)
+            else:
+                t = UnitValue(7, mk_units(U, d2))
+            case = {"same_system": U, "dim": d, "target_dim": d2, "form": form, "array": is_arr}
+            ctx.case(("sd", U, d, d2, form, is_arr))
+            ctx.count("same_system_other_dim")
+            try:
+                y = src.convert(t)
+                ctx.violation("convert-other-dim-same-system:%s" % form,
+                              "conversion to a different dimension within the same unit system did not raise (%s target)" % form,
+                              case, impl=str(y), expected="exception")
+            except Exception:  # noqa
+                pass
 
     # ---------------------------------------------------------------- 4. litre / molar families through unit text
     ops, meta = [], []
